@@ -18,17 +18,22 @@ HAYSTACKS = [
     "true", "True", "TRUE", "false", "null", "None", "0x10", "1_0", "(1,)",
     "[1]", "{[1]:2}", "a b", "1e3", "été", "1.5-", "10-", "1.", "tru",
     "True-", "0-",
+    # integers past 2**53 (adjacent ones differ by less than a float step)
+    # and past the float range
+    9007199254740992, 9007199254740993, -9007199254740993, 10 ** 400,
+    1.7976931348623157e308,
 ]
 NEEDLES = [
     "a", "b", "ab", "abc", "A", "", "1", "2", "10", "01", "-1", "0", "1.5",
     "1.50", "0.5", "300", "2.25", "-3.75", "1.0", "true", "True", "TRUE",
     "false", "null", "None", "0x10", "1_0", "(1,)", "[1]", "{[1]:2}", "a b",
     "^a", "b$", "1e3", "2021-01-01", ".", "\\d", "[a-b]", "x", "é",
+    "9007199254740992", "9007199254740993", "1" + "0" * 400,
 ]
 METHODS = compare.ALL_METHODS
 
 RULE = ("E1: the complete grid 9 operators x %d haystacks (loaded YAML "
-        "scalars: null, booleans, ints, floats, text, numeric strings, "
+        "scalars: null, booleans, ints incl. neighbours past 2**53 and 10**400, floats, text, numeric strings, "
         "look-alike literals, a date) x %d needles through "
         "Searches.search_matches, compared with a reference table written "
         "from the statement (Unspecified cells only assert 'does not raise'); "
